@@ -1,10 +1,12 @@
 import MirosModel.Drive.Hsm
 import MirosModel.Queue.Model
+import MirosModel.Queue.Unbounded
 /-! Line protocol for layer 2.
 
 `q <chart as in hsm> cap nEff (state sigcode effkind arg)* nOps (op arg)*`
   sigcode: 0 entry, 1 exit, 2 init, 10+n user n ; effkind: 0 fifo 1 lifo 2 defer 3 recall 4 scribble
   op: 0 start s | 4 post_fifo sig | 5 post_lifo sig | 6 defer sig | 7 recall | 8 next_rtc | 9 complete_circuit
+  cap: a number (`QUEUE_SIZE = cap`), or the literal `U` (`QUEUE_SIZE = None`, unbounded queues)
 -/
 namespace Miros.Drive
 open Miros.Hsm Miros.Queue
@@ -79,5 +81,55 @@ def qLine (toks : List Nat) : String :=
   let (h, _) := parseQCase.run toks
   let s0 : QState := { cap := h.cap, q := [], dq := [], cur := [], next := 0, dispatched := [] }
   " | ".intercalate (qOps h h.ops s0 [])
+
+/-! ### `QUEUE_SIZE = None`: capacity token `U`
+
+`q <chart> U nEff … nOps …` — the literal `U` in the place of the capacity runs the unbounded model
+(`Queue/Unbounded.lean`: `traceOpsU`); same operations, same output format as for a number. -/
+
+/-- the operation codes of the line protocol as operations of the model -/
+def xopOf (h : QCase) (o a : Nat) : XOp :=
+  if o = 0 then .start (h.tab.path a)
+  else if o = 4 then .postFifo a
+  else if o = 5 then .postLifo a
+  else if o = 6 then .defer a
+  else if o = 7 then .recall
+  else if o = 8 then .nextRtc
+  else .completeCircuit 300
+
+def showRet : Ret → String
+  | .unit => "-"
+  | .ev (some e) => s!"{e.sig}.{e.uid}"
+  | .ev none => "None"
+  | .bool true => "True"
+  | .bool false => "False"
+
+def showQU (ret : String) (u : QStateU) (log : Log) : String :=
+  s!"ok ret={ret} cur={sid u.cur} q={showEvs u.q} d={showEvs u.dq} disp={showEvs u.dispatched} log={showLog log}"
+
+def showX : XRes QStateU → String
+  | .ok ret u log => showQU (showRet ret) u log
+  | .raise => "raise"
+  | .diverge => "diverge"
+
+def qLineU (toks : List Nat) : String :=
+  let (h, _) := parseQCase.run toks
+  " | ".intercalate ((traceOpsU h.qc h.cfg (initU []) (h.ops.map fun (o, a) => xopOf h o a)).map showX)
+
+/-- the bounded model through the same recording runner (`traceOps`); prints what `qLine` prints
+(used to cross-check `qOps` against `traceOps`: family `qx`) -/
+def qLineX (toks : List Nat) : String :=
+  let (h, _) := parseQCase.run toks
+  let s0 : QState := { cap := h.cap, q := [], dq := [], cur := [], next := 0, dispatched := [] }
+  " | ".intercalate ((traceOps h.qc h.cfg s0 (h.ops.map fun (o, a) => xopOf h o a)).map showX)
+
+/-- entry of family `q` on the raw tokens: the capacity token (the first token after the chart) may
+be the literal `U`; every other token is a number (anything else is dropped, as before) -/
+def qLineS (rest : List String) : String :=
+  let kept := rest.filter (fun t => t == "U" || t.toNat?.isSome)
+  let toks := kept.map (fun t => (t.toNat?).getD 0)
+  let (_, afterChart) := parseChart.run toks
+  let capIdx := toks.length - afterChart.length
+  if kept[capIdx]? == some "U" then qLineU toks else qLine (rest.filterMap String.toNat?)
 
 end Miros.Drive
